@@ -1023,6 +1023,11 @@ func (c14) Run(ctx *Ctx, ci interface{}) (o Outcome) {
 			}
 		}
 	}
+	if got, ok := s0.disc["CountProfile.fromfile.sorted"]; ok && got != s0.disc["CountProfile.sorted"] {
+		// whatever the case of the residues: a profile written to a file and read back is the profile
+		o.Fail("definition:CountProfile-from-file", "the count profile of the alignment is %s; written to a profile file and read back it is %s\n%s", clip(s0.disc["CountProfile.sorted"], 400), clip(got, 400), desc())
+		return
+	}
 	if !hasLower && !hasSpecial {
 		// unique characters, count profile, unique gaps / residues per row, differences to the first row, alleles
 		var uc []byte
